@@ -17,7 +17,7 @@ PID = 'C04'
 
 META = {
     'technique': 'lockset dataflow over clang CFGs with interprocedural entry locksets (pairing, lock-order graph acyclicity, guarded-by of shared counters), writer inventory of globals by thread-entry reachability, wait/post matching by type-resolved field',
-    'text': 'Decides necessary structural conditions of schedule-independence for the encoder pipeline on all paths: no lock leaked on a normal exit, acyclic lock order, no blocking call under a lock beyond the allow-list, every read-modify-write of a shared per-picture counter under its mutex, pipeline-written globals consistently locked or single-threaded, and no wait without a matching post. A data race, lock-order cycle or orphan wait is sufficient to break the property; their absence is necessary, not sufficient (value-level order independence of the reorder queues is not decided). Also decided: a condition variable that is waited on is re-armed by pipeline code for every reuse of its pooled picture object, and every per-picture segment accumulator is put back to its start value by pipeline code (a recycled control set otherwise completes early).',
+    'text': 'Decides necessary structural conditions of schedule-independence for the encoder pipeline on all paths: no lock leaked on a normal exit, acyclic lock order, no blocking call under a lock beyond the allow-list, every read-modify-write of a shared per-picture counter under its mutex, pipeline-written globals consistently locked or single-threaded, and no wait without a matching post. A data race, lock-order cycle or orphan wait is sufficient to break the property; their absence is necessary, not sufficient (value-level order independence of the reorder queues is not decided). Also decided: a condition variable that is waited on is re-armed by pipeline code for every reuse of its pooled picture object, and every per-picture segment accumulator is put back to its start value by pipeline code (a recycled control set otherwise completes early). Also decided: a field that a pipeline function tests under a lock is never assigned a non-reset value by that function outside that lock (publish-and-test atomicity of the last-finisher idiom).',
     'note': 'thread entry points are the functions passed to svt_create_thread; INIT_ONLY/DCTOR code is single-threaded by construction; plain "=" resets before the SRM hand-off are ordered by the hand-off; allocation-failure exits (returns inside throwing allocation macros) are outside this property (C16) and reported as informational',
     'ref': 'DESIGN.md section 5 C04',
 }
@@ -263,6 +263,53 @@ def run(P, rep, tier):
         if any(h for h, _ in ss) and any(not h for h, _ in ss):
             rep.note('guard candidate (not in the confirmed table): %s accumulated under a lock in %s and without one in %s' %
                      (lf, sorted({n for h, n in ss if h})[:3], sorted({n for h, n in ss if not h})[:3]))
+
+    # ---------------- TESTSET: "publish my part, then test whether all parts are done" must be one atomic step.  In a pipeline
+    # function, a field that the function tests (in a branch condition) while holding lock L is never given a non-reset value by
+    # the same function outside L: otherwise two workers can both publish first and both see the completed state, and the
+    # completion path (posting the picture, releasing references) runs twice.
+    nts = 0
+    occ = {}
+    for f in enc:
+        if f not in C.kernel:
+            continue
+        a = la.analyse(f)
+        if not a['events']:
+            continue
+        cls = {ident: cl for _, _, ident, cl, _ in a['events']}
+        reads = {}
+        for bid in f.reach():
+            b = f.blocks[bid]
+            c = b.get('cond')
+            if c is None:
+                continue
+            st = a['outs'].get(bid)
+            if st is None:
+                continue
+            must = {cls[i] for i in st[0]} | set(must_entry.get(f, frozenset()))
+            for fld in fields_in(c):
+                for L in must:
+                    reads.setdefault(fld, {}).setdefault(L, b.get('tl', f.line))
+        for ev in f.events(('st',)):
+            e = ev['e']
+            if e[0] not in ('a', 'u'):
+                continue
+            t = strip(e[2])
+            if t[0] != 'm' or t[1] not in reads:
+                continue
+            if e[0] == 'a' and e[1] == '=' and strip(e[3])[0] == 'l' and strip(e[3])[1] == 0:
+                continue            # reset to the start value: made by the single owner before / after the shared phase
+            must, may = la.held_classes_at(f, ev)
+            held = must | must_entry.get(f, frozenset())
+            for L, line in sorted(reads[t[1]].items()):
+                nts += 1
+                kk = (f.name, t[1], L)
+                occ[kk] = occ.get(kk, 0) + 1
+                ok = L in held
+                rep.ob('C04.TESTSET', '%s/%s:%s#%d' % (f.name, t[1], L.split('.')[-1], occ[kk]), ok, f.loc(ev),
+                       '%s is tested under %s (line %d) and assigned %s' % (t[1], L, line, 'under it as well' if ok else
+                       'here WITHOUT it (%s held): publish and completion test are no longer atomic' % (sorted(held) or 'no lock')))
+    rep.floor('C04.TESTSET', 30)
 
     # ---------------- REARM: per-picture accumulators live in pooled (recycled) picture control sets; a counter that is only
     # ever incremented under its mutex and never put back to its start value by pipeline code makes the "last finisher"
